@@ -192,6 +192,37 @@ Proof.
       cbn [len length]. reflexivity.
 Qed.
 
+(* ---- the wire form of a released DATA frame (queuedDataFrame.send after prepare) *)
+Definition data_of (w : wframe) : list N := match w with WData _ _ d => d | _ => [] end.
+Definition ends_stream (w : wframe) : bool := match w with WData _ es _ => es | _ => false end.
+Definition is_wdata (w : wframe) : bool := match w with WData _ _ _ => true | _ => false end.
+
+Lemma wdata_pieces_wire : forall fuel m id d es,
+  let ws := wdata_pieces fuel m id d es in
+  concat (map data_of ws) = d /\
+  Forall (fun w => is_wdata w = true /\ w_id w = id) ws /\
+  exists k, map ends_stream ws = repeat false k ++ [es].
+Proof.
+  induction fuel as [|k IH]; intros m id d es; cbn [wdata_pieces].
+  - cbn. split; [apply app_nil_r|]. split; [repeat constructor|]. exists O. reflexivity.
+  - destruct ((0 <? m) && (m <? len d)).
+    + destruct (IH m id (dropN m d) es) as [Hc [Hf [j Hj]]]. cbv zeta. cbn [map concat data_of ends_stream].
+      split; [rewrite Hc; unfold takeN, dropN; apply firstn_skipn|].
+      split; [constructor; [split; reflexivity|exact Hf]|].
+      exists (Datatypes.S j). rewrite Hj. reflexivity.
+    + cbn. split; [apply app_nil_r|]. split; [repeat constructor|]. exists O. reflexivity.
+Qed.
+
+(* whatever max frame size was recorded at release (0 and sizes above the payload included): the frames written
+   for a queued DATA frame are DATA frames of its stream, their payloads concatenate to the queued octets, and
+   END_STREAM is on the last one only, with the queued value *)
+Theorem send_data_wire id es d m :
+  let ws := send (QDataP id es d m) in
+  concat (map data_of ws) = d /\
+  Forall (fun w => is_wdata w = true /\ w_id w = id) ws /\
+  exists k, map ends_stream ws = repeat false k ++ [es].
+Proof. cbn [send]. apply wdata_pieces_wire. Qed.
+
 (* ---- forwardPreface *)
 Lemma read_full_spec : forall reads n, (n <= length (concat reads))%nat ->
   exists rest, read_full n reads = Some (firstn n (concat reads), rest) /\ concat rest = skipn n (concat reads).
